@@ -34,6 +34,24 @@ func toksString(ts []etok) string {
 	return strings.Join(p, " ")
 }
 
+// layoutToks renders the tokens with a line break after operators and opening parentheses (all of them, or a
+// random subset); a break after an operand or a closing parenthesis would end the statement in Go
+func layoutToks(ts []etok, all bool, r *rng) string {
+	var sb strings.Builder
+	for i, t := range ts {
+		sb.WriteString(t.text)
+		if i == len(ts)-1 {
+			break
+		}
+		if !t.atom && t.text != ")" && (all || r.chance(40)) {
+			sb.WriteString("\n")
+		} else {
+			sb.WriteString(" ")
+		}
+	}
+	return sb.String()
+}
+
 func toksCoq(ts []etok) string {
 	var p []string
 	for _, t := range ts {
@@ -403,6 +421,29 @@ func cmdC05(seed uint64, thorough bool, dir string) {
 				wellTyped[i] = ge
 			} else if tv.i != -99 {
 				st.Histogram["not valid Go for the type checker (skipped in the value comparison)"]++
+			}
+		}
+		// source layout: the same tokens spread over several lines -- a line break after an operator or an opening
+		// parenthesis never ends a Go expression -- must give the same tree (every break, and a random subset)
+		if perr == nil {
+			for mode := 0; mode < 2; mode++ {
+				ml := layoutToks(ts, mode == 0, r)
+				if !strings.Contains(ml, "\n") {
+					continue
+				}
+				gm, merr := parser.ParseExpr(ml)
+				if merr != nil || goDump(gm) != goDump(ge) {
+					continue // not the same Go expression in this layout (never observed; kept as a guard)
+				}
+				st.Histogram["multi-line layout"]++
+				got2, err2 := g.VerifParse(ml, false)
+				got2S := "ERR"
+				if err2 == nil {
+					got2S = strings.TrimSuffix(strings.TrimPrefix(got2, "(_ "), ")")
+				}
+				if got2S != goDump(ge) {
+					st.mismatchG("layout|"+binOpsOf(ts), c05Mismatch{Kind: "grouping of a multi-line expression", Expr: ml, Ops: binOpsOf(ts), Expected: goDump(ge), Got: got2S})
+				}
 			}
 		}
 		if strings.Contains(src, "&^") {
